@@ -19,18 +19,18 @@ PROPERTY = "C17"
 LEVEL = "exploration"
 RULE = (
     "cases = (sequence, enzyme pattern, str/compiled, missed cleavages, min_length, max_length, clip, semi), "
-    "every combination enumerated once per sequence length (shortest first inside a work item); a case is "
+    "every combination enumerated exactly once, shortest sequences first; a case is "
     "non-trivial iff the reference digest is non-empty and is not just {whole sequence}; cases are distinct by "
     "construction (counted, not hashed); outcomes = hash of the returned peptide set folded into 2^20 buckets "
     "(a lower bound on the number of distinct results)"
 )
 ASSUMPTIONS = [
-    "min_length >= 1 (the empty string is never a peptide) and max_length <= len(sequence)+1, so every "
-    "length bound that can change the result of a sequence is covered",
+    "min_length >= 1 (the empty string is never a peptide); bounds beyond len(sequence)+1 are not explored "
+    "(by the definition they are equivalent to len(sequence)+1)",
     "cleavage sites are taken as DISTINCT positions {0, len} U {match ends}, as the statement says",
     "where the statement is silent the reference accepts both readings: semi prefixes of a clipped form, and the "
     "clipped form of an N-terminal peptide that is exactly one residue longer than max_length",
-    "over {A,K,P,M} the patterns [KR] and K have the same sites; both are kept (str vs. regex alternatives)",
+    "over {A,K,P,M} the patterns [KR] and K have the same sites; K is therefore explored one length less than [KR]",
 ]
 
 PATTERNS = {"[KR]": "AKPM", "[KR](?!P)": "AKPM", "K": "AKPM", "(?=D)": "ADM"}
@@ -48,32 +48,37 @@ def _digest(case):
                   semi=case["semi"])
 
 
+def report(acc, signature, message, case, expected=None, observed=None):
+    """Record a violation; after 10 of one signature per work item only count (keeps broken trees fast)."""
+    acc.count("viol:" + signature)
+    if acc.extra["viol:" + signature] <= 10:
+        acc.violation(Violation(signature, message, case, expected, observed))
+    else:
+        acc.n_violations += 1
+
+
 def judge(case, got, must, allowed, acc):
     """Compare one result with the reference; returns True iff it agrees."""
     if got == must:
         return True
     if not isinstance(got, (set, frozenset)) or not all(isinstance(p, str) for p in got):
-        acc.violation(Violation("digest-not-a-set-of-str", f"digest returned {type(got).__name__}", case,
-                                expected=must, observed=got))
+        report(acc, "digest-not-a-set-of-str", f"digest returned {type(got).__name__}", case, must, got)
         return False
-    ok = True
     missing, extra = must - got, got - allowed
-    if missing:
-        ok = False
-        acc.violation(Violation("digest-missing-peptide", f"peptides required by the definition are absent: "
-                                f"{sorted(missing)[:6]}", case, expected=must, observed=got))
     foreign = {p for p in extra if p == "" or p not in case["seq"]}
+    if missing:
+        report(acc, "digest-missing-peptide",
+               f"peptides required by the definition are absent: {sorted(missing)[:6]}", case, must, got)
     if foreign:
-        ok = False
-        acc.violation(Violation("digest-not-substring", f"returned strings that are empty or not substrings: "
-                                f"{sorted(foreign)[:6]}", case, expected=must, observed=got))
+        report(acc, "digest-not-substring",
+               f"returned strings that are empty or not substrings: {sorted(foreign)[:6]}", case, must, got)
     if extra - foreign:
-        ok = False
-        acc.violation(Violation("digest-extra-peptide", f"peptides the enzyme rules do not allow: "
-                                f"{sorted(extra - foreign)[:6]}", case, expected=allowed, observed=got))
-    if ok:
-        acc.count("accepted_by_lax_reading")
-    return ok
+        report(acc, "digest-extra-peptide",
+               f"peptides the enzyme rules do not allow: {sorted(extra - foreign)[:6]}", case, allowed, got)
+    if missing or extra:
+        return False
+    acc.count("accepted_by_lax_reading")
+    return True
 
 
 def neighbours(case):
@@ -89,21 +94,21 @@ def neighbours(case):
 
 
 def not_monotone(case, axis, small, big, acc):
-    acc.violation(Violation(f"digest-not-monotone:{axis}",
-                            f"allowing more ({axis}) removed peptides {sorted(small - big)[:6]}",
-                            case, expected=small, observed=big))
+    report(acc, f"digest-not-monotone:{axis}",
+           f"allowing more ({axis}) removed peptides {sorted(small - big)[:6]}", case, small, big)
 
 
 def check_case(case, acc):
-    """One case, stand-alone (used by replay; the worker does the same over a whole grid)."""
+    """One case, stand-alone (used by replay; check_sequence does the same over a whole grid)."""
     try:
         got = _digest(case)
     except Exception as e:
-        acc.violation(Violation(f"digest-raises:{type(e).__name__}", f"digest raised {type(e).__name__}: {e}", case))
+        report(acc, f"digest-raises:{type(e).__name__}", f"digest raised {type(e).__name__}: {e}", case)
         return None
     must, allowed = ref_digest(case["seq"], case["pattern"], case["mc"], case["min"], case["max"],
                                case["clip"], case["semi"])
-    if judge(case, got, must, allowed, acc):
+    judge(case, got, must, allowed, acc)
+    if isinstance(got, (set, frozenset)):
         for axis, nb in neighbours(case):
             big = _digest(nb)
             if not got <= big:
@@ -118,56 +123,55 @@ def check_sequence(digest, seq, pattern, compiled, acc):
     sites = ref_sites(seq, pattern)
     whole = {seq}
     grid = {}
+
+    def case_of(mc, clip, semi, lo, hi):
+        return dict(seq=seq, pattern=pattern, compiled=compiled, mc=mc, min=lo, max=hi, clip=clip, semi=semi)
+
     for mc in MC:
         for clip in (False, True):
             for semi in (False, True):
                 must_items, may_items = ref_items(seq, sites, mc, clip, semi)
                 for lo in range(1, n + 2):
                     for hi in range(lo, n + 2):
-                        case = None
                         try:
                             got = digest(seq, enzyme_regex=enz, missed_cleavages=mc, clip_nterm_methionine=clip,
                                          min_length=lo, max_length=hi, semi=semi)
                         except Exception as e:
-                            case = dict(seq=seq, pattern=pattern, compiled=compiled, mc=mc, min=lo, max=hi,
-                                        clip=clip, semi=semi)
-                            acc.violation(Violation(f"digest-raises:{type(e).__name__}",
-                                                    f"digest raised {type(e).__name__}: {e}", case))
+                            report(acc, f"digest-raises:{type(e).__name__}",
+                                   f"digest raised {type(e).__name__}: {e}", case_of(mc, clip, semi, lo, hi))
                             acc.case(nontrivial=False, cls="crash")
                             continue
                         must = select(must_items, lo, hi)
                         if got != must:
-                            case = dict(seq=seq, pattern=pattern, compiled=compiled, mc=mc, min=lo, max=hi,
-                                        clip=clip, semi=semi)
-                            if not judge(case, got, must, must | select(may_items, lo, hi), acc):
-                                got = None
+                            allowed = must | select(may_items, lo, hi)
+                            if not judge(case_of(mc, clip, semi, lo, hi), got, must, allowed, acc):
+                                if not isinstance(got, (set, frozenset)):
+                                    acc.case(nontrivial=False, cls="wrong_type")
+                                    continue
                         if n <= SELFCHECK_LEN:
-                            m2, a2 = ref_digest_plain(seq, pattern, mc, lo, hi, clip, semi)
                             acc.count("reference_selfchecks")
-                            if (m2, a2) != (must, must | select(may_items, lo, hi)):
-                                acc.violation(Violation("harness-reference-disagrees", "fast and literal reference differ",
-                                                        dict(seq=seq, pattern=pattern, compiled=compiled, mc=mc, min=lo,
-                                                             max=hi, clip=clip, semi=semi), expected=m2, observed=must))
+                            if ref_digest_plain(seq, pattern, mc, lo, hi, clip, semi) != (
+                                    must, must | select(may_items, lo, hi)):
+                                report(acc, "harness-reference-disagrees", "fast and literal reference differ",
+                                       case_of(mc, clip, semi, lo, hi))
                         grid[(mc, clip, semi, lo, hi)] = got
                         nontrivial = bool(must) and must != whole
                         acc.case(nontrivial=nontrivial, cls="result",
-                                 outcome=None if got is None else hash(frozenset(got)) & BUCKETS,
-                                 sample=dict(seq=seq, pattern=pattern, compiled=compiled, mc=mc, min=lo, max=hi,
-                                             clip=clip, semi=semi, digest=sorted(must))
+                                 outcome=hash(frozenset(got)) & BUCKETS,
+                                 sample=dict(case_of(mc, clip, semi, lo, hi), digest=sorted(must))
                                  if nontrivial and acc.evaluations % 50021 == 11 else None)
     # monotonicity over the grid (same relation as neighbours())
+    pairs = 0
     for (mc, clip, semi, lo, hi), got in grid.items():
-        if got is None:
-            continue
         for axis, key in (("mc", (mc + 1, clip, semi, lo, hi)), ("min", (mc, clip, semi, lo - 1, hi)),
                           ("max", (mc, clip, semi, lo, hi + 1)), ("semi", (mc, clip, True, lo, hi))):
             big = grid.get(key)
             if big is None or big is got:
                 continue
-            acc.count("monotonicity_pairs")
+            pairs += 1
             if not got <= big:
-                not_monotone(dict(seq=seq, pattern=pattern, compiled=compiled, mc=mc, min=lo, max=hi, clip=clip,
-                                  semi=semi), axis, got, big, acc)
+                not_monotone(case_of(mc, clip, semi, lo, hi), axis, got, big, acc)
+    acc.count("monotonicity_pairs", pairs)
 
 
 def worker(item):
@@ -196,28 +200,31 @@ def run(ctx):
     if ctx.quick:
         full, deep, deep_ad, comp = 7, 7, 8, 5
     else:
-        full, deep, deep_ad, comp = 8, 9, 10, 7
+        full, deep, deep_ad, comp = 8, 9, 10, 6
     akpm = tuple(p for p, a in PATTERNS.items() if a == "AKPM")
     items = []
-    for n in range(0, deep_ad + 1):
-        if n <= full:
+    for n in range(0, deep_ad + 1):  # shortest first, so the first counterexample kept is the smallest
+        if n < full:
             items += _items(n, akpm, False)
+        elif n == full:  # "K" has the same sites as "[KR]" over AKPM: not repeated at the deepest level
+            items += _items(n, ("[KR]", "[KR](?!P)"), False)
         elif n <= deep:
             items += _items(n, ("[KR](?!P)",), False)
         items += _items(n, ("(?=D)",), False)
         if n <= comp:
             items += _items(n, akpm, True) + _items(n, ("(?=D)",), True)
-    items.reverse()  # largest work items first (load balance); VERIF_SEED rotates the order
     ctx.pmap(worker, items, chunksize=1)
     ctx.exhaustive = True
     ctx.info["bound"] = {
-        "max_len_AKPM_all_patterns": full, "max_len_AKPM_[KR](?!P)": deep, "max_len_ADM_(?=D)": deep_ad,
+        "max_len_AKPM_[KR]": full, "max_len_AKPM_K": full - 1, "max_len_AKPM_[KR](?!P)": deep,
+        "max_len_ADM_(?=D)": deep_ad,
         "max_len_compiled_regex": comp, "min_len": 0, "missed_cleavages": list(MC),
         "length_bounds": "every 1 <= min <= max <= len+1", "clip_x_semi": 4,
     }
     ctx.info["explanation"] = (
-        f"every sequence over AKPM up to length {full} x 3 patterns (length {deep} for [KR](?!P)), every sequence "
-        f"over ADM up to length {deep_ad} x (?=D); compiled patterns up to length {comp}; all parameters per sequence"
+        f"every sequence over AKPM up to length {full} x [KR], [KR](?!P) (K: length {full - 1}; [KR](?!P): length "
+        f"{deep}), every sequence over ADM up to length {deep_ad} x (?=D); compiled patterns up to length {comp}; "
+        "all parameters per sequence"
     )
 
 
